@@ -18,7 +18,10 @@ GROUPS = {
                "flip_run", "pick_run"],
     # idealisation step: weight of a flip / pick node vs. the count of accepted 64-bit words
     "ideal": ["flip_law", "flip_weight_counting", "flip_weight_frequency", "fair_coin_exact",
-              "pick_weight_counting", "law_of_bind"],
+              "pick_weight_counting", "law_of_bind",
+              # heat-bath node hbPick: the 2^-52 grid of gen_range(0.0..t) (QmcProofs/LawRandF.lean)
+              "hbPick_accept_counting", "hbPick_accept_frequency", "hbPick_pick_counting",
+              "hbPick_pick_frequency_interior"],
     # law = kernel, Metropolis slot and sweep, invariance of the law of the executable sweep
     "sweep": ["metropolisSlot_law_eq_kernel", "metropolisSweep_law_eq_kernel",
               "metropolisSweep_law_eq_kernel_legalSpace", "metropolisSweep_law_invariant",
